@@ -111,11 +111,16 @@ pub fn run(op: &str, args: &[&str]) -> Option<String> {
                     let files = it.next().unwrap_or("");
                     if !files.is_empty() {
                         for f in files.split(',') {
-                            /* a leading NUL marks a file that exists but is empty */
+                            /* "<name>=<bytes>" gives the file's content; a leading NUL marks a file that exists but is empty */
+                            let (f, content) = match f.split_once('=') {
+                                Some((n, c)) => (n, Some(bytes(c))),
+                                None => (f, None),
+                            };
                             let fname = text(f);
-                            match fname.strip_prefix('\0') {
-                                Some(n) => std::fs::write(p.join(n), b"").unwrap(),
-                                None => std::fs::write(p.join(&fname), format!(" content of {} \n", fname)).unwrap(),
+                            match (fname.strip_prefix('\0'), content) {
+                                (Some(n), _) => std::fs::write(p.join(n), b"").unwrap(),
+                                (None, Some(c)) => std::fs::write(p.join(&fname), c).unwrap(),
+                                (None, None) => std::fs::write(p.join(&fname), format!(" content of {} \n", fname)).unwrap(),
                             }
                         }
                     }
@@ -127,8 +132,12 @@ pub fn run(op: &str, args: &[&str]) -> Option<String> {
                 for pkg in db {
                     match pkg {
                         Ok(p) => {
-                            let c = p.read_metadata(MetadataEntry::Comment).unwrap_or_else(|_| "<unreadable>".into());
-                            v.push(format!("{}|{}|{}|{}", show_bytes(p.pkgname().as_bytes()), show_bytes(p.pkgbase().as_bytes()), show_bytes(p.pkgversion().as_bytes()), show_bytes(c.as_bytes())));
+                            let rd = |e: MetadataEntry| match p.read_metadata(e) {
+                                Ok(c) => show_bytes(c.as_bytes()),
+                                Err(_) => "<unreadable>".to_string(),
+                            };
+                            v.push(format!("{}|{}|{}|{}|{}|{}", show_bytes(p.pkgname().as_bytes()), show_bytes(p.pkgbase().as_bytes()), show_bytes(p.pkgversion().as_bytes()),
+                                           rd(MetadataEntry::Comment), rd(MetadataEntry::Contents), rd(MetadataEntry::Desc)));
                         }
                         Err(_) => v.push("ERR".to_string()),
                     }
